@@ -299,6 +299,31 @@ func dispatchTotal(c *Ctx, emit *ssa.Function, label string, minArms int) {
 // c10fReadOut: what an emitter function returns as text is the read-out of the builder it wrote
 // into — nothing reworks a finished piece of output between the last write and the return.
 func c10fReadOut(c *Ctx) {
+	// builders are written through their own methods, where the write-site scan and the output
+	// grammar see every write: a builder handed to fmt.Fprint*, io.WriteString or any other
+	// writer-taking function outside the repository would be written behind their back
+	for _, fn := range c.W.Funcs {
+		if isTestFunc(c.W, fn) || len(fn.Blocks) == 0 || c.W.PkgShort(fn) == "" {
+			continue
+		}
+		k := 0
+		for _, ci := range callsIn(fn) {
+			g := callee(ci)
+			if g == nil || c.W.InRepo(g) || strings.HasPrefix(calleeName(ci), "(*strings.Builder).") {
+				continue
+			}
+			for _, a := range ci.Common().Args {
+				v := a
+				if mi, ok := v.(*ssa.MakeInterface); ok {
+					v = mi.X
+				}
+				if strings.HasSuffix(v.Type().String(), "*strings.Builder") {
+					k++
+					c.Bad(fmt.Sprintf("builder-written-elsewhere/%s#%d", c.W.FuncKey(fn), k), c.W.Pos(ci.Pos()), c.W.FuncKey(fn)+" hands a strings.Builder to "+calleeName(ci)+": what that call writes is seen by none of the rules that follow the output")
+				}
+			}
+		}
+	}
 	n := 0
 	for _, fn := range c.W.FuncsOf("emitter") {
 		if isTestFunc(c.W, fn) || len(fn.Blocks) == 0 || fn.Signature.Results().Len() == 0 {
